@@ -279,10 +279,10 @@ def check(run, replay=None):
             return do_replay(run, binp, replay, d)
         scheds = []
         mc, gen, rnd = stage_cfgs(pid, run.tier, rng)
-        nrand = {"quick": 12, "thorough": 80}[run.tier]
-        glimit = {"quick": 1500, "thorough": 12000}[run.tier]
-        if pid == "C06" and not th:
-            nrand, glimit = 8, 1000         # the property with the most stages: keep the quick tier near a minute
+        nrand = {"quick": 12, "thorough": 50}[run.tier]
+        glimit = {"quick": 1500, "thorough": 8000}[run.tier]
+        if pid == "C06":
+            nrand, glimit = (30, 6000) if th else (8, 1000)      # the property with the most stages: quick near a minute, thorough near ten
         grng = random.Random(rng.random())
         # (1) exhaustive model checking of the I models against the P predicates and (2) schedule generation: independent TLC runs
         tasks = [lambda: stage_mc(run, pid, [dict(c) for c in mc], d)]
@@ -310,7 +310,7 @@ def check(run, replay=None):
                 scheds.append(dict(s, epilogue="cancel"))
             scheds += [dict(s, epilogue="closewait") for s in g if rng.random() < 0.25]
             scheds += rand_scheds(rnd + other_cfgs("C06", th, rng), rng, nrand, ["cancel", "closewait", "drain", "cancel-keepup"])
-            scheds += rand_scheds(pipeline_cfgs(rng, 200 if th else 40), rng, 3, ["cancel", "cancel", "closewait"])
+            scheds += rand_scheds(pipeline_cfgs(rng, 100 if th else 40), rng, 3, ["cancel", "cancel", "closewait"])
             scheds += special_scheds(pid, th, rng)
         elif pid == "C07":
             scheds += [dict(s, epilogue="drain") for s in g]
